@@ -130,6 +130,22 @@ fn main() {
         if !g.emit_package {
             b = b.disable_package_emission();
         }
+        // documentation options: with and without package in the spelling, for a service and for
+        // single rpcs - none of it may change what is generated
+        if gi % 3 == 2 {
+            for s in &g.services {
+                for pre in [g.pkg.clone().map(|p| p + ".").unwrap_or_default(), String::new()] {
+                    if gi % 2 == 0 {
+                        b = b.disable_comments(format!("{}{}", pre, s.name));
+                    }
+                    for (j, m) in s.methods.iter().enumerate() {
+                        if j % 2 == 0 {
+                            b = b.disable_comments(format!("{}{}.{}", pre, s.name, m.name));
+                        }
+                    }
+                }
+            }
+        }
         b.compile_fds(FileDescriptorSet { file: vec![fd] }).unwrap_or_else(|e| panic!("tonic-build failed on family member {}: {}", gi, e));
         let mut files: Vec<std::path::PathBuf> = std::fs::read_dir(&dir).unwrap().flatten().map(|e| e.path()).filter(|p| p.extension().map(|x| x == "rs").unwrap_or(false)).collect();
         files.sort();
